@@ -95,6 +95,8 @@ type End struct {
 	KeepReads     bool
 	WriteCalls    int
 	ClosedAt      time.Duration
+	ClosedStep    int
+	IsClosedNow   bool
 	CloseCalls    int
 	CloseWriteAt  time.Duration
 	DidCloseWrite bool
@@ -458,6 +460,7 @@ func (e *End) Close() error {
 	}
 	e.closed = true
 	e.ClosedAt = s.Elapsed()
+	e.ClosedStep = s.StepLocked()
 	if !e.wclosed {
 		e.wclosed = true
 		e.sendSegLocked(seg{fin: true})
